@@ -359,47 +359,172 @@ theorem parseWithMetadata_sound (s t m : Bytes) (h : parseWithMetadata s = .ok (
             subst this; rfl
       · simp [hall] at h
 
+/-! ## multi-tenant completeness -/
+
+theorem tenantIDs_ok_iff (s : Bytes) :
+    (∃ l, tenantIDs s = .ok l) ↔ ∀ p ∈ splitOn sepTenants s, validTenantID (trimMeta p) = .ok () := by
+  unfold tenantIDs
+  simp only
+  constructor
+  · rintro ⟨l, h⟩
+    cases hv : validateAll ((splitOn sepTenants s).map trimMeta) with
+    | error e => simp [hv] at h
+    | ok u =>
+      cases u
+      intro p hp
+      exact (validateAll_ok _).1 hv (trimMeta p) (List.mem_map.2 ⟨p, hp, rfl⟩)
+  · intro h
+    have hva : validateAll ((splitOn sepTenants s).map trimMeta) = .ok () := by
+      rw [validateAll_ok]
+      intro q hq
+      obtain ⟨p, hp, rfl⟩ := List.mem_map.1 hq
+      exact h p hp
+    exact ⟨sortDedup ((splitOn sepTenants s).map trimMeta), by simp only [hva]⟩
+
 /-! ## transport -/
 
-theorem hop_some (id : Bytes) (h : Hop) (c : Ctx) (hh : hop (some id) h = .ok c) : c = some id := by
+theorem value_inject (c : Ctx) (o : Bytes) : (injectOrgID c o).value .org = some o := by
+  simp [injectOrgID, Ctx.value]
+
+theorem value_inject_user (c : Ctx) (o : Bytes) : (injectOrgID c o).value .user = c.value .user := by
+  simp [injectOrgID, Ctx.value]
+
+theorem extract_inject (c : Ctx) (o : Bytes) : extractOrgID (injectOrgID c o) = .ok o := by
+  simp [extractOrgID, value_inject]
+
+/-- one hop from a context holding `id`: it succeeds exactly when the carrier is clean, and then the
+new context is the receiver's with `id` bound on top. -/
+theorem hop_spec (c : Ctx) (id : Bytes) (hc : extractOrgID c = .ok id) (h : Hop) :
+    (hopClean id h = true → ∃ recv, hop c h = .ok (injectOrgID recv id)) ∧
+    (hopClean id h = false → ∃ e, hop c h = .error e) := by
   cases h with
   | http ex recv =>
-    simp only [hop, injectHTTP, extractOrgID] at hh
-    by_cases h1 : ex ≠ [] ∧ ex ≠ id
-    · simp [h1] at hh
-    · simp only [h1, if_false] at hh
-      unfold extractHTTP at hh
-      by_cases h2 : id = []
-      · simp [h2] at hh
-      · simp only [h2, if_false] at hh
-        injection hh with hh; exact hh.symm
+    simp only [hop, injectHTTP, hc, hopClean]
+    constructor
+    · intro hcl
+      simp only [Bool.and_eq_true, bne_iff_ne, ne_eq, Bool.or_eq_true, beq_iff_eq] at hcl
+      obtain ⟨hid, hex⟩ := hcl
+      have : ¬ (ex ≠ [] ∧ ex ≠ id) := by
+        rintro ⟨h1, h2⟩; rcases hex with h | h
+        · exact h1 h
+        · exact h2 h
+      rw [if_neg this]
+      exact ⟨recv, by simp [extractHTTP, hid]⟩
+    · intro hcl
+      by_cases h1 : ex ≠ [] ∧ ex ≠ id
+      · rw [if_pos h1]; exact ⟨_, rfl⟩
+      · rw [if_neg h1]
+        have hid : id = [] := by
+          by_cases hid : id = []
+          · exact hid
+          · exfalso
+            have hex : ex = [] ∨ ex = id := by
+              by_cases h2 : ex = []
+              · exact Or.inl h2
+              · right
+                by_cases h3 : ex = id
+                · exact h3
+                · exact absurd ⟨h2, h3⟩ h1
+            have : (id != [] && (ex == [] || ex == id)) = true := by
+              simp only [Bool.and_eq_true, bne_iff_ne, ne_eq, Bool.or_eq_true, beq_iff_eq]
+              exact ⟨hid, hex⟩
+            rw [this] at hcl
+            exact Bool.noConfusion hcl
+        exact ⟨.noOrgID, by simp [extractHTTP, hid]⟩
   | grpc ex recv =>
-    simp only [hop, injectGRPC, extractOrgID] at hh
-    cases ex with
-    | none => simp only [extractGRPC] at hh; injection hh with hh; exact hh.symm
-    | some l =>
-      match l, hh with
-      | [], hh => simp at hh
-      | [x], hh =>
-        by_cases hx : x ≠ id
-        · simp [hx] at hh
-        · have hx' : x = id := by simpa using hx
-          simp only [hx, if_false, extractGRPC] at hh
-          injection hh with hh; rw [← hh, hx']
-      | _ :: _ :: _, hh => simp at hh
+    simp only [hop, injectGRPC, hc, hopClean]
+    constructor
+    · intro hcl
+      simp only [Bool.or_eq_true, beq_iff_eq] at hcl
+      rcases hcl with h | h
+      · subst h; exact ⟨recv, rfl⟩
+      · subst h; exact ⟨recv, by simp [extractGRPC]⟩
+    · intro hcl
+      simp only [Bool.or_eq_false_iff, beq_eq_false_iff_ne, ne_eq] at hcl
+      obtain ⟨h1, h2⟩ := hcl
+      match ex, h1, h2 with
+      | some [], _, _ => exact ⟨_, rfl⟩
+      | some [x], _, h2 =>
+        have : x ≠ id := fun h => h2 (by rw [h])
+        exact ⟨.differentOrg, by simp [this]⟩
+      | some (_ :: _ :: _), _, _ => exact ⟨_, rfl⟩
 
-theorem transport_identity (id : Bytes) (hops : List Hop) (i : Nat) (c : Ctx)
-    (h : chain (some id) hops i = .ok c) : c = some id := by
-  induction hops generalizing i with
-  | nil => simp only [chain] at h; injection h with h; exact h.symm
+theorem hop_some (c : Ctx) (id : Bytes) (hc : extractOrgID c = .ok id) (h : Hop) (c' : Ctx) (hh : hop c h = .ok c') :
+    extractOrgID c' = .ok id ∧ hopClean id h = true := by
+  obtain ⟨h1, h2⟩ := hop_spec c id hc h
+  cases hcl : hopClean id h with
+  | true =>
+    obtain ⟨recv, hr⟩ := h1 hcl
+    rw [hh] at hr
+    injection hr with hr
+    rw [hr]
+    exact ⟨extract_inject recv id, rfl⟩
+  | false =>
+    obtain ⟨e, he⟩ := h2 hcl
+    rw [hh] at he
+    cases he
+
+theorem transport_identity (c : Ctx) (id : Bytes) (hc : extractOrgID c = .ok id) (hops : List Hop) (i : Nat) (c' : Ctx)
+    (h : chain c hops i = .ok c') : extractOrgID c' = .ok id := by
+  induction hops generalizing i c with
+  | nil => simp only [chain] at h; injection h with h; rw [← h]; exact hc
   | cons hp hs ih =>
     simp only [chain] at h
-    cases hh : hop (some id) hp with
+    cases hh : hop c hp with
     | error e => simp [hh] at h
-    | ok c' =>
+    | ok c1 =>
       simp only [hh] at h
-      have := hop_some id hp c' hh
-      subst this
-      exact ih (i + 1) h
+      exact ih c1 (hop_some c id hc hp c1 hh).1 (i + 1) h
+
+/-- a chain succeeds exactly when every hop is clean. -/
+theorem transport_succeeds_iff (c : Ctx) (id : Bytes) (hc : extractOrgID c = .ok id) (hops : List Hop) (i : Nat) :
+    (∃ c', chain c hops i = .ok c') ↔ ∀ h ∈ hops, hopClean id h = true := by
+  induction hops generalizing i c with
+  | nil => simp [chain]
+  | cons hp hs ih =>
+    simp only [chain, List.mem_cons, forall_eq_or_imp]
+    cases hh : hop c hp with
+    | error e =>
+      simp only [reduceCtorEq, exists_false, false_iff, not_and]
+      intro hcl
+      obtain ⟨recv, hr⟩ := (hop_spec c id hc hp).1 hcl
+      rw [hh] at hr
+      cases hr
+    | ok c1 =>
+      obtain ⟨h1, h2⟩ := hop_some c id hc hp c1 hh
+      simp only [h2, true_and]
+      exact ih c1 h1 (i + 1)
+
+/-- the index reported with a failure is that of the first hop that is not clean. -/
+theorem transport_fails_at (c : Ctx) (id : Bytes) (hc : extractOrgID c = .ok id) (hops : List Hop) (i : Nat) (e : Err) (n : Nat)
+    (h : chain c hops i = .error (e, n)) :
+    ∃ j, n = i + j ∧ (∀ h ∈ hops.take j, hopClean id h = true) ∧ ∃ hp, hops[j]? = some hp ∧ hopClean id hp = false := by
+  induction hops generalizing i c with
+  | nil => simp [chain] at h
+  | cons hp hs ih =>
+    simp only [chain] at h
+    cases hh : hop c hp with
+    | error e' =>
+      simp only [hh, Except.error.injEq, Prod.mk.injEq] at h
+      refine ⟨0, by omega, by simp, hp, rfl, ?_⟩
+      cases hcl : hopClean id hp with
+      | false => rfl
+      | true =>
+        obtain ⟨recv, hr⟩ := (hop_spec c id hc hp).1 hcl
+        rw [hh] at hr
+        cases hr
+    | ok c1 =>
+      simp only [hh] at h
+      obtain ⟨h1, h2⟩ := hop_some c id hc hp c1 hh
+      obtain ⟨j, hj, hall, hp', hget, hcl⟩ := ih c1 h1 (i + 1) h
+      refine ⟨j + 1, by omega, ?_, hp', by simpa using hget, hcl⟩
+      intro x hx
+      simp only [List.take_succ_cons, List.mem_cons] at hx
+      rcases hx with rfl | hx
+      · exact h2
+      · exact hall x hx
+
+theorem no_default (c : Ctx) (hc : c.value .org = none) (h : Hop) : hop c h = .error .noOrgID := by
+  cases h <;> simp [hop, injectHTTP, injectGRPC, extractOrgID, hc]
 
 end PfC20
